@@ -308,6 +308,13 @@ def predicate(op, il, mres, tag):
             if ent.get(d.get("user", "-")) != "1":
                 return ("Relic.Props.C04.sign_only_if_entitled", "401/403 and empty token log",
                         "key used or disclosed for a caller the configuration does not entitle (user=%s)" % d.get("user"))
+            # the entry the token ends up using must be the one the requested name resolves to (one alias hop),
+            # i.e. the one the caller's roles were compared with
+            for e in (d.get("ev", "-").split(",") if touched else []):
+                parts = e.split(":")
+                if len(parts) == 3 and parts[0] in ("getkey", "sign") and "res" in t and parts[2] != t["res"]:
+                    return ("Relic.Props.C04.sign_only_if_entitled", "token uses key " + t["res"],
+                            "the token was made to use key entry %s, not the entry %s the caller was authorised for (second alias hop)" % (parts[2], t["res"]))
         if keyed and t.get("mal") == "1" and (touched or d["status"] not in (400, 401, 403, 500) or
                                                (d["status"] == 500 and "ssl=bad" not in op)):
             return ("Relic.Props.C04.malformed_config_is_error", "refusal, no token event", "malformed entry not refused")
